@@ -1,5 +1,5 @@
 """Run ONE directed family of one property check (for evaluating a new tie against patched trees):
-usage: [USIM_REPO=<tree> VERIF_SCRATCH=<dir>] try_family.py <Cxx> <function> <n> [seed]
+usage: [USIM_REPO=<tree> VERIF_SCRATCH=<dir>] try_family.py <Cxx> <function> <n> [seed [extra string arguments of the family]]
 prints the number of failures and mismatches the family produced."""
 import importlib
 import json
@@ -16,7 +16,7 @@ def main():
     mod = importlib.import_module('harness.props.' + prop)
     ctx = check.Ctx(prop, 'quick', seed)
     ctx.build = coqbuild.ensure_built()
-    getattr(mod, fn)(ctx, n)
+    getattr(mod, fn)(ctx, n, *sys.argv[5:])
     unlisted = [f for f in ctx.failures if f.finding is None]
     print('%s.%s n=%d: %d failures (%d unlisted), %d mismatches' % (prop, fn, n, len(ctx.failures), len(unlisted), len(ctx.mismatches)))
     for f in unlisted[:2]:
